@@ -9,8 +9,20 @@ CHECKS = {}
 NOT_APPLICABLE = {}
 
 def load():
-    tab = json.load(open(os.path.join(HERE, "manifest_table.json")))
-    return tab["checks"], tab["not_applicable"]
+    checks, na = {}, {}
+    d = os.path.join(HERE, "manifest")
+    for f in sorted(os.listdir(d)):
+        if f.endswith(".json"):
+            e = json.load(open(os.path.join(d, f)))
+            if "not_applicable" in e:
+                na[f[:-5]] = e["not_applicable"]
+            else:
+                checks[f[:-5]] = e
+    props = [json.loads(l)["id"] for l in open(os.path.join(HERE, "properties.jsonl"))]
+    for p in props:
+        if p not in checks and p not in na:
+            na[p] = "check not built yet (work in progress; DESIGN.md section 9 gives the plan for this property)"
+    return checks, na
 
 def main():
     checks, na = load()
